@@ -24,7 +24,7 @@ ASSUMPTIONS = ['reference machine = meaning of the statement', 'segments inside 
 
 def plan(tier):
     if tier == 'thorough':
-        return {'cases': 250000, 'chunk': 250, 'budget_s': 1200, 'case_timeout_s': 30, 'minimise_budget_s': 240}
+        return {'cases': 700000, 'chunk': 500, 'budget_s': 1200, 'case_timeout_s': 30, 'minimise_budget_s': 240}
     return {'cases': 45000, 'chunk': 200, 'budget_s': 70, 'case_timeout_s': 30, 'minimise_budget_s': 90}
 
 
